@@ -353,7 +353,14 @@ fn run_case(c: &Case, rec: &mut CaseRec) -> Result<(), String> {
                     SplitMix(n as u64).fill(&mut v, n as usize);
                     v
                 });
-                let (archive, _) = compress_cli_over(&dir, "a", &source, &c.cfg, c.writer == Writer::CliStdin, &c.metadata, hook.as_ref(), existing.as_deref())?;
+                // every other overwrite case also finds a stale temporary chunk file of an earlier failed run
+                let stale: Option<Vec<u8>> = c.overwrite.filter(|n| n % 2 == 1).map(|n| {
+                    let mut v = Vec::new();
+                    SplitMix(n as u64 ^ 0x51A1E).fill(&mut v, 3 * n as usize + 17);
+                    v
+                });
+                let (archive, _) = compress_cli_over(&dir, "a", &source, &c.cfg, c.writer == Writer::CliStdin, &c.metadata, hook.as_ref(), existing.as_deref(), stale.as_deref())?;
+                rec.class_if(stale.is_some(), "stale_temp_file_present");
                 let h = conformance(&archive, &source, &c.cfg, &md, c.writer, rec)?;
                 reader_reports(&Arc::new(archive), &h, &c.cfg, &md)?;
                 info_reports(&dir, "a.cba", &h, &c.cfg, &md)?;
